@@ -96,6 +96,9 @@ class Predicate(proxyauth.Validator):
 
     def __call__(self, username, password):
         self.calls.append((username, password))
+        if self.outcome == "raises":
+            # a failing back end (bcrypt rejects passwords over 72 bytes with ValueError, an LDAP bind error, ...)
+            raise ValueError("credential check failed")
         return self.outcome
 
 
@@ -152,6 +155,10 @@ def h_kernel(X, maxlen):
         u = _string(X, "user", maxlen)
         p = _string(X, "password", maxlen)
         acc = X.boolean("validator_accepts")
+        raising = (not acc) and X.boolean("validator_raises")  # the check itself fails: such credentials are not valid
+        vout = "raises" if raising else acc
+        if raising:
+            X.reach("validator-raises")
         colon_user = ":" in u
         cls = "password-with-colon" if ":" in p else ("non-ascii" if (not u.isascii() or not p.isascii()) else ("empty" if not u or not p else "plain"))
         value = proxyauth.mkauth(u, p)
@@ -163,12 +170,16 @@ def h_kernel(X, maxlen):
                 got = e
             X.check(got == ("basic", u, p), f"C20/kernel/{cls}/header-round-trip", f"parse_http_basic_auth(mkauth({u!r}, {p!r})) -> {got!r}")
         # HTTP path
-        pred = Predicate(acc)
+        pred = Predicate(vout)
         pa.validator = pred
         f = _flow(mode)
         f.request.headers[header] = value
         f.request.headers["X-Keep"] = "1"
-        ok = pa.authenticate_http(f)
+        try:
+            ok = pa.authenticate_http(f)
+        except ValueError as e:
+            X.fail(f"C20/kernel/{cls}/validator-exception-escapes", f"{mode}: the validator raised {e!r} for ({u!r}, {p!r}); authenticate_http let it escape "
+                   f"(the hook fails, no {status} is set: response={f.response}) - the request would be forwarded")
         X.reach("http-path")
         if colon_user:
             # outside Basic: whatever pair is derived, acceptance must follow the validator's verdict on *that* pair
@@ -187,17 +198,23 @@ def h_kernel(X, maxlen):
         # CONNECT path bookkeeping
         f2 = _flow(mode)
         f2.request.headers[header] = value
-        pred2 = Predicate(acc)
+        pred2 = Predicate(vout)
         pa.validator = pred2
-        pa.http_connect(f2)
+        try:
+            pa.http_connect(f2)
+        except ValueError as e:
+            X.fail(f"C20/kernel/{cls}/validator-exception-escapes", f"{mode}: CONNECT: the validator raised {e!r}; http_connect let it escape, response={f2.response}")
         if not colon_user:
             X.check((f2.client_conn in pa.authenticated) == bool(acc), f"C20/kernel/{cls}/connect-state", f"acc={acc} authenticated={dict(pa.authenticated)} response={f2.response}")
             X.check(acc or f2.response is not None, f"C20/kernel/{cls}/connect-no-challenge", "refused CONNECT without a response")
         # SOCKS5 path gets the strings directly
-        pred3 = Predicate(acc)
+        pred3 = Predicate(vout)
         pa.validator = pred3
         data = modes.Socks5AuthData(f.client_conn, u, p)
-        pa.socks5_auth(data)
+        try:
+            pa.socks5_auth(data)
+        except ValueError:
+            pass  # a failing hook leaves data.valid at its default (False): judged below
         X.check(data.valid == acc and pred3.calls == [(u, p)], f"C20/kernel/{cls}/socks5-verdict", f"valid={data.valid} acc={acc} calls={pred3.calls}")
         X.check((f.client_conn in pa.authenticated) == bool(acc), f"C20/kernel/{cls}/socks5-state", f"acc={acc} but authenticated={f.client_conn in pa.authenticated}")
 
@@ -425,8 +442,8 @@ def obligations(tier):
     q = tier == "quick"
     ml = 2 if q else 3
     return [
-        Symx("kernel", lambda X: h_kernel(X, ml), bounds=f"user, password: all strings of length 0..{ml} over {ALPHABET} x validator outcome x {5 if q else 3} proxy modes; {len(MALFORMED)} malformed header shapes",
-             encoded=ENCODED[:9], must_reach=["http-path", "accepted", "refused", "malformed"], parallel_depth=3),
+        Symx("kernel", lambda X: h_kernel(X, ml), bounds=f"user, password: all strings of length 0..{ml} over {ALPHABET} x validator outcome {{accepts, refuses, raises}} x {5 if q else 3} proxy modes; {len(MALFORMED)} malformed header shapes",
+             encoded=ENCODED[:9], must_reach=["http-path", "accepted", "refused", "malformed", "validator-raises"], parallel_depth=3),
         Symx("paths", lambda X: h_paths(X, 3 if q else 4, True), bounds="paths {regular absolute-form, CONNECT + inner requests, reverse, upstream, SOCKS5 + inner requests} x proxyauth {user:pass, any} x "
              f"sequences of <= {3 if q else 4} requests (GET / POST with body in its own segment; on the CONNECT path CONNECT or absolute-form) on one connection x credentials {{none, wrong, valid, valid with ':' in the password}}; then a second unauthenticated connection", encoded=ENCODED,
              must_reach=["end", "refused", "forwarded", "connect-accepted", "socks5-accepted", "socks5-refused", "with-body", "second-connection"], parallel_depth=3),
